@@ -15,12 +15,12 @@ add('C15', 'exploration', 'runtime monitor: real emitters driven over exhaustive
     'Trusts the reference decoders; arm64 emitters are the current /repo sources compiled for amd64 (pure Go).',
     'DESIGN.md 2 C15')
 
-add('C20', 'exploration', 'offline interval-disjointness checker over recorded allocation histories under spin-barrier stress; fault injection of mmap failure (RLIMIT_AS, size)',
+add('C20', 'exploration', 'offline interval-disjointness checker over recorded allocation histories under spin-barrier stress; fault injection of mmap failure (RLIMIT_AS, size, seccomp filters); consumer workload (interface mocks) past exhaustion',
     'The real allocator is hammered by 1-64 goroutines released together, thousands of rounds over many processes; every granted region is recorded and checked offline for overlap/containment/size; the public Acquire path is checked for rwx, write/read-back and by executing a written stub; the mmap-failure dispatch is provoked for real. Schedules are sampled (the evidence counts time-overlapping requests).',
     'Schedules are those 16 cores produce; bump-pointer reset between rounds is treated as starting a new history.',
     'DESIGN.md 2 C20')
 
-add('C14', 'exploration', 'whole-text-image differ + /proc/self/maps page-permission monitor after every patch step; strace mprotect event log checked offline',
+add('C14', 'exploration', 'whole-text-image differ + /proc/self/maps page-permission monitor after every patch step; strace mprotect event log checked offline; the boundary sweeps again under a seccomp W^X policy',
     'Real patch/unpatch and WriteTo calls are executed on thousands of functions, synthetic short/straddling functions and boundary-crossing writes; after every step the complete executable image is compared with its pristine copy and page permissions are read back; a second run under strace checks that no mprotect ever drops PROT_EXEC and every touched page ends R|X.',
     'Image monitor covers file-backed executable mappings of the test binary; synthetic cases live in a harness mapping; the strace pass uses a reduced case list.',
     'DESIGN.md 2 C14')
